@@ -68,10 +68,15 @@ def run(ctx):
     ctx.sample({"mode": "names", "s": "foo_bar__baz"})
 
     # 2. accepted programs: every compiled descriptor against the mirror and against the specification
-    corpus = [(l, fs) for l, fs in G.CORPUS]
+    #    identifier shapes: every identifier of length <= 3 (5) over {a,Z,_,9}, X-prefixed look-alikes and random longer ones,
+    #    each put wherever a descriptor entry is derived from a name (json_name, synthetic oneof, map entry, group field)
+    shape_ids = G.shape_ids(rng, ctx.budget(3, 5), ctx.budget(40, 600))
+    shapes = G.shape_sets(shape_ids)
+    corpus = [(l, fs) for l, fs in G.CORPUS] + shapes
     parsed = G.parse_sets(ctx, [fs for _, fs in corpus])
     cc = [("corpus:" + l, asts, fs) for (l, fs), (asts, why) in zip(corpus, parsed) if asts is not None and not why]
-    progs = G.gen_cases(rng, ctx.budget(30, 2500), ctx.budget(2, 3), small=(ctx.tier != "thorough"), extended=True)
+    shape_unfit = [(l, why) for (l, fs), (asts, why) in zip(corpus, parsed) if l.startswith("shape-") and (asts is None or why)]
+    progs = G.gen_cases(rng, ctx.budget(30, 2500), ctx.budget(2, 3), small=(ctx.tier != "thorough"), extended=True, idshapes=True)
     texts = G.render_sets(rng, progs)
     allc = cc + [(label, files, t) for (label, files), t in zip(progs, texts)]
     outs = ctx.impl("miniproto", G.compile_inputs([t for _, _, t in allc], [[f["name"] for f in files] for _, files, _ in allc]))
@@ -87,7 +92,8 @@ def run(ctx):
             ctx.corr_break("miniproto:descriptor-missing", {"label": label, "files": t}, {"note": "an accepted file has no descriptor"})
             continue
         nfields = sum(len(m["fields"]) for fd in o["fds"] for m in fd["messages"])
-        ctx.count((label, repr(sorted(G.plain_text(files).items()))), True, "accepted:" + ("valid" if label == "valid" else "near-valid"))
+        ctx.count((label, repr(sorted(G.plain_text(files).items()))), True,
+                  "accepted:" + ("valid" if label == "valid" else "id-shape" if label.startswith("corpus:shape-") else "near-valid"))
         cases.append((label, files, t, o))
         terms.append(ts[0])
     for c in cases[:1] + cases[len(cc):len(cc) + 2]:
@@ -119,9 +125,26 @@ def run(ctx):
             if k in m_mis:
                 ctx.corr_break("miniproto:descriptor", replay, {"note": "mirror model and implementation disagree on a descriptor"})
     ctx.extra["documented_divergences_seen"] = nexc
-    ctx.rule = ("(a) ASCII strings: all of length <= %d over {a,Z,_,9} + random; (b) accepted file sets: boundary corpus, generated valid programs and "
-                "accepted near-valid mutants; distinct = distinct string / canonical source text; a program case is non-trivial when it compiled "
-                "(its descriptors are compared field by field with the mirror and with the protoc specification)" % ctx.budget(5, 7))
+    # the identifier-shape stratum must not be vacuous: how many of its file sets reach the comparison, and how many of
+    # those the specification accepts (for the others the property says nothing)
+    sh = [c for c in cases if c[0].startswith("corpus:shape-")]
+    rej, err = G.cached_eval("cases_C02_shape_spec", [G.spec_term(c[1], True) for c in sh], "spec_valid_chk", max(8, len(sh) // (2 * NCPU) + 1))
+    if err:
+        raise RuntimeError(err)
+    ctx.extra["identifier_shapes"] = {
+        "identifiers": len(shape_ids), "file_sets": len(shapes), "outside_model_fragment": len(shape_unfit),
+        "accepted_by_implementation": len(sh), "of_those_accepted_by_specification": len(sh) - len(rej),
+        "specification_rejects": sorted(sh[i][0][len("corpus:"):] for i in rej)[:60],
+        "outside_model_fragment_sample": [[l, w[:2]] for l, w in shape_unfit[:10]],
+    }
+    if len(sh) - len(rej) < len(shapes) // 2:
+        ctx.corr_break("miniproto:identifier-shapes-vacuous", {"file_sets": len(shapes), "compared": len(sh) - len(rej)},
+                       {"note": "fewer than half of the identifier-shape file sets are accepted by both sides: the stratum decides nothing"})
+    ctx.rule = ("(a) ASCII strings: all of length <= %d over {a,Z,_,9} + random; (b) accepted file sets: boundary corpus, identifier shapes (every identifier of length <= %d "
+                "over {a,Z,_,9}, X-prefixed look-alikes and random longer ones as proto3-optional field with and without declared names on its "
+                "candidate chain, oneof member, map field, extension, group; proto2 / proto3 / editions), generated valid programs (field, oneof "
+                "and group names of all identifier shapes) and accepted near-valid mutants; distinct = distinct string / canonical source text; a program case is non-trivial when it compiled "
+                "(its descriptors are compared field by field with the mirror and with the protoc specification)" % (ctx.budget(5, 7), ctx.budget(3, 5)))
 
     ctx.extra["rule_families"] = {
         "F3 naming functions (JSONName, MapEntry, synthetic oneof names)": "theorem + oracle",
